@@ -190,6 +190,37 @@ def one_step(chk, g, drv, jobs, path, gtis, step=0):
     return o
 
 
+def multi_file(chk, g, d, rounds=2):
+    """one xpselect call on several files whose observations do not start and end at the same time (the detector units of an observation, or
+    several observations), with a one-sided window: every output carries the keywords of *its own* input"""
+    from ixpeobssim.bin.xpselect import PARSER, xpselect as app
+    for r in range(rounds):
+        files = [build_file(g, d, bool(g.integers(0, 2)), t0=10000. + float(off)) for off in (0., -float(g.integers(3, 9)), float(g.integers(2, 7)))]
+        order = [int(x) for x in g.permutation(3)]
+        side = ['tmax', 'tmin'][r % 2]
+        bound = 10000. + float(numpy.round(g.uniform(300., 1700.), 3))
+        kw = {side: bound, 'ltimealg': str(g.choice(['LTSUM', 'LTSCALE']))}
+        argv = [files[i][0] for i in order] + ['--ltimeupdate', 'True', '--suffix', 'multi%d' % r, '--overwrite', 'True', '--%s=%r' % (side, bound), '--ltimealg', kw['ltimealg']]
+        desc = dict(op='select --ltimeupdate, several files in one call', kwargs=kw, order=order)
+        chk.case(desc, nontrivial=True)
+        try:
+            outs = app(**PARSER.parse_args(argv).__dict__)
+        except BaseException as e:
+            chk.fail('impl', 'xpselect on three files with %s raised %s: %s' % (kw, type(e).__name__, e), dict(oracle='keywords-multi', kwargs=kw, order=order, error=str(e)))
+            continue
+        for i, o in zip(order, outs):
+            hd0, t, ph, lt = headers(files[i][0])
+            hd1, _, _, _ = headers(o)
+            exp, _m = documented(hd0, t, ph, lt, kw)
+            for ext in ('PRIMARY', 'EVENTS', 'GTI'):
+                bad = [k for k in KEYS if not close(hd1[ext][k], exp[k])]
+                if bad:
+                    chk.fail('impl', 'xpselect %s on three files (order %s): file %d (TSTART %.3f, TSTOP %.3f): %s header has %s, documented values are %s' % (
+                        kw, order, i, hd0['PRIMARY']['TSTART'], hd0['PRIMARY']['TSTOP'], ext, {k: hd1[ext][k] for k in bad}, {k: exp[k] for k in bad}),
+                        dict(oracle='keywords-multi', kwargs=kw, order=order, file=i, header=ext, observed=hd1[ext], expected=exp))
+                    break
+
+
 def run_cases(chk, n, tagname, budget=1):
     g = rng(tagname)
     with scratch() as d:
@@ -204,6 +235,7 @@ def run_cases(chk, n, tagname, budget=1):
                 hd, t, _, _ = headers(o)
                 if len(t) > 20:
                     one_step(chk, g, drv, jobs, o, gtis, 1)
+        multi_file(chk, g, d, 2 * budget)
         replies = drv.run()
         for (kw, h0, h1, step), rep in zip(jobs, replies):
             if rep == 'none':
